@@ -128,6 +128,53 @@ def gen_pair(rng, maxn=8, **kw):
     return L, R
 
 
+def gen_dup_pair(rng):
+    """Documents full of DUPLICATE content (identical leaves / subtrees in several places), the right one derived by
+    dropping or unwrapping wrappers, moving or copying subtrees: matching is by similarity, so equal content is matched
+    cross-wise and identical-looking subtrees are not necessarily partners."""
+    leaves = [('item', 'Alpha'), ('item', 'Beta'), ('note', 'Alpha'), ('item', None)]
+    wrappers = ['sec', 'draft', 'box']
+
+    def leaf():
+        t, x = rng.choice(leaves[:rng.choice((2, 3, 4))])
+        e = etree.Element(t)
+        e.text = x
+        return e
+
+    def sub(depth):
+        e = etree.Element(rng.choice(wrappers))
+        for _ in range(rng.randint(1, 3)):
+            e.append(sub(depth - 1) if depth > 0 and rng.random() < .3 else leaf())
+        return e
+    L = etree.Element('doc')
+    for _ in range(rng.randint(2, 4)):
+        L.append(sub(1) if rng.random() < .75 else leaf())
+    R = deepcopy(L)
+    for _ in range(rng.randint(1, 3)):
+        ws = [e for e in R.iter() if e is not R and len(e)]
+        if not ws:
+            break
+        w = rng.choice(ws)
+        op = rng.random()
+        par = w.getparent()
+        if op < .35:                     # drop the wrapper with its content
+            par.remove(w)
+        elif op < .6:                    # unwrap: the children take the wrapper's place
+            i = par.index(w)
+            for k, c in enumerate(list(w)):
+                par.insert(i + k, c)
+            par.remove(w)
+        elif op < .8:                    # move the wrapper to the end / front of another parent
+            tg = rng.choice([e for e in R.iter() if e.tag in wrappers + ['doc'] and e is not w and e not in list(w.iter())] or [R])
+            par.remove(w)
+            tg.insert(rng.choice((0, len(tg))), w)
+        else:                            # duplicate it
+            par.insert(par.index(w), deepcopy(w))
+    if rng.random() < .5:
+        L, R = R, L
+    return L, R
+
+
 def all_shapes(n):
     """All ordered rooted tree shapes with n nodes, as nested tuples."""
     if n == 1:
